@@ -81,6 +81,7 @@ fn spec(prop: &str) -> CheckSpec {
         "C16" => {
             rule = "Per case: a G1 primary history (scrollback, saved cursor, any cursor place, all limits), then enter (47/1047/1049 as its own call), an excursion of G1 input filtered by the reference parser to contain no leave sequence and no RIS (re-entering with another mode number allowed), in half of the cases interleaved with resizes and cursor moves, then leave with a possibly different mode number. Checked: entry screen blank in the pen current at entry; text() identical after every excursion call and primary lines() (cells, pens, marks) identical after return while the size is unchanged; nothing handed out during the excursion; C02 geometry invariants after every call; 1049/1049 restores the cursor; after a resized excursion the logical lines are only re-wrapped / cut short at the end and a 1049 cursor that was on a character is on the same character. Plus the differential monitor rows for the switch itself. distinct_nontrivial = distinct (enter mode, leave mode, resized, limit class, wrap-pending at entry, scrollback present, size changed).";
             gates.push(Gate { counter: "resized_excursions", min_quick: 5_000, min_thorough: 50_000 });
+            gates.push(Gate { counter: "merged_entries_with_a_trim_pending_on_the_parked_primary", min_quick: 2_000, min_thorough: 20_000 });
             gates.push(Gate { counter: "resized_1049_excursions_with_cursor_on_a_character", min_quick: 300, min_thorough: 3_000 });
         }
         "C19" => {
@@ -181,7 +182,9 @@ fn replay(prop: &str, h: &hist::History, rep: &mut Report) {
         "C14" => relmon::c14_history(h, rep),
         "C15" => callmon::c15_history(h, rep),
         "C16" => {
-            if h.meta_get("enter_at").is_some() {
+            if h.meta_get("merged_at").is_some() {
+                relmon::c16_merged_history(h, rep)
+            } else if h.meta_get("enter_at").is_some() {
                 relmon::c16_history(h, rep)
             } else {
                 mon::diffmon::run_one(prop, h, rep)
